@@ -199,8 +199,8 @@ fn distinct_inner(
                     // DISTINCT
 
                     res.push(SqlTransform::Distinct);
-                } else if ctx.dialect.supports_distinct_on() && range_int.end == Some(1) {
-                    // DISTINCT ON (only if we want to select only one row per group)
+                } else if ctx.dialect.supports_distinct_on() && take_only_first {
+                    // DISTINCT ON (only if we want to select only the first row per group)
 
                     let sort = if sort.is_empty() {
                         vec![]
